@@ -5,6 +5,7 @@ package c08
 import (
 	"fmt"
 	"reflect"
+	"sort"
 	"strconv"
 	"strings"
 	"testing"
@@ -25,6 +26,113 @@ type Case struct {
 	Root      *vx.Node   `json:"root"`
 	Envs      []*vx.Node `json:"envs,omitempty"`
 	Resolvers [][]vx.KV  `json:"resolvers,omitempty"`
+	// Layers are merged into the configuration after Root, one Merge call each: the configuration that is read
+	// is the result of the whole history (references are late bound: they see the settings merged last)
+	Layers []*vx.Node `json:"layers,omitempty"`
+	// Build: how the configuration is put together, see build
+	Build int `json:"build,omitempty"`
+	// ReadSep: path separator of a second option list for FlattenedKeys/CompareConfigs ("" = none)
+	ReadSep string `json:"read_sep,omitempty"`
+}
+
+// names below containers that are nested in containers (a list in the object o, a list or object as element of l)
+var nestedNames = []string{"o.l", "o.l.0", "o.l.1", "o.l.1"}
+
+// plantNested puts a list into the object o and, according to lshape, a list (1) or an object (2) into the list l
+func plantNested(t *rapid.T, g *vx.GCfg, root *vx.Node, lshape int) {
+	if o := root.Get("o"); o != nil && o.K == "obj" && rapid.IntRange(0, 2).Draw(t, "nest-o") > 0 {
+		o.Put("l", &vx.Node{K: "list", Vals: []*vx.Node{g.GenLeaf(t, true), g.GenLeaf(t, true)}})
+	}
+	if l := root.Get("l"); l != nil && l.K == "list" && len(l.Vals) == 2 {
+		switch lshape {
+		case 1:
+			l.Vals[1] = &vx.Node{K: "list", Vals: []*vx.Node{g.GenLeaf(t, true), g.GenLeaf(t, true)}}
+		case 2:
+			e := &vx.Node{K: "obj"}
+			e.Put("x", g.GenLeaf(t, true))
+			e.Put("y", g.GenLeaf(t, true))
+			l.Vals[1] = e
+		}
+	}
+}
+
+// genLayer draws settings for a later Merge call: it redefines leaves of the tree merged so far (same places,
+// new leaves: literals, nil, expressions), element-wise for a prefix of every list, and may add the setting d
+func genLayer(t *rapid.T, g *vx.GCfg, cur *vx.Node) *vx.Node {
+	var sparse func(n *vx.Node, p int) *vx.Node
+	sparse = func(n *vx.Node, p int) *vx.Node {
+		switch n.K {
+		case "obj":
+			out := &vx.Node{K: "obj"}
+			for i, k := range n.Keys {
+				if sub := sparse(n.Vals[i], p); sub != nil {
+					out.Put(k, sub)
+				}
+			}
+			if len(out.Keys) == 0 {
+				return nil
+			}
+			return out
+		case "list":
+			out := &vx.Node{K: "list"}
+			for i, m := 0, rapid.IntRange(0, len(n.Vals)).Draw(t, "prefix"); i < m; i++ {
+				e := n.Vals[i]
+				if e.K == "obj" || e.K == "list" {
+					// a container stays a container (names lead through it): some of its members are redefined
+					sub := sparse(e, 1)
+					if sub == nil {
+						sub = &vx.Node{K: e.K}
+					}
+					out.Vals = append(out.Vals, sub)
+					continue
+				}
+				out.Vals = append(out.Vals, g.GenLeaf(t, true))
+			}
+			if len(out.Vals) == 0 {
+				return nil
+			}
+			return out
+		}
+		if rapid.IntRange(0, p).Draw(t, "redef") == 0 {
+			return g.GenLeaf(t, true)
+		}
+		return nil
+	}
+	l := sparse(cur, 2)
+	if l == nil {
+		l = &vx.Node{K: "obj"}
+	}
+	if cur.Get("d") == nil && rapid.IntRange(0, 2).Draw(t, "addd") == 0 {
+		l.Put("d", g.GenLeaf(t, true))
+	}
+	if len(l.Keys) == 0 {
+		l.Put("a", g.GenLeaf(t, true))
+	}
+	return l
+}
+
+// mergedRoot is the model of the history: Root, then every layer merged into it.
+func (c Case) mergedRoot() *vx.Node {
+	root := c.Root.Clone()
+	for _, l := range c.Layers {
+		root = vx.MergeModel(root, l)
+	}
+	return root
+}
+
+// drawHistory draws the dimensions that are not the reference graph itself: later Merge calls, the way the
+// configuration is assembled, a second path separator for flattening and diffing.
+func drawHistory(t *rapid.T, g *vx.GCfg, c *Case) {
+	if rapid.IntRange(0, 2).Draw(t, "layered") == 0 {
+		cur := c.Root.Clone()
+		for i, n := 0, rapid.IntRange(1, 2).Draw(t, "nlayers"); i < n; i++ {
+			l := genLayer(t, g, cur)
+			c.Layers = append(c.Layers, l)
+			cur = vx.MergeModel(cur, l)
+		}
+	}
+	c.Build = rapid.SampledFrom([]int{0, 0, 1, 2, 3}).Draw(t, "build")
+	c.ReadSep = rapid.SampledFrom([]string{"/", "", "::", "-"}).Draw(t, "readsep")
 }
 
 func genCase(t *rapid.T) Case {
@@ -34,23 +142,48 @@ func genCase(t *rapid.T) Case {
 	if rapid.IntRange(0, 3).Draw(t, "allnames") == 0 {
 		names = vx.Names
 	}
+	nested := rapid.IntRange(0, 2).Draw(t, "nested") == 0
+	lshape := 0
+	if nested {
+		// (index 0 of a primitive is the primitive itself, which the model does not know: l.1.0 is a name only
+		// where l.1 is a list)
+		names = append(append([]string(nil), names...), nestedNames...)
+		switch lshape = rapid.IntRange(0, 2).Draw(t, "lshape"); lshape {
+		case 1:
+			names = append(names, "l.1.0", "l.1.1", "l.1.0")
+		case 2:
+			names = append(names, "l.1.x", "l.1.y", "l.1.x")
+		}
+	}
 	g := &vx.GCfg{Depth: runlog.Pick(2, 3), Names: names}
 	c := Case{Root: g.GenRoot(t)}
+	if nested {
+		plantNested(t, g, c.Root, lshape)
+	}
 	if rapid.IntRange(0, 2).Draw(t, "env") == 0 {
 		c.Envs = append(c.Envs, g.GenEnv(t))
 	}
 	if rapid.IntRange(0, 2).Draw(t, "res") == 0 {
 		c.Resolvers = append(c.Resolvers, g.GenResolver(t))
 	}
+	drawHistory(t, g, &c)
 	if rapid.IntRange(0, 5).Draw(t, "selfext") == 0 {
 		// a setting that extends the equally named variable a resolver provides
 		k := rapid.SampledFrom([]string{"a", "b", "c", "d"}).Draw(t, "selfk")
 		self := vx.Part{IsVar: true, Name: []vx.Part{{Lit: k}}}
 		parts := [][]vx.Part{{self, {Lit: ":/usr"}}, {{Lit: "pre-"}, self}, {self, {Lit: ","}, self}, {self}, {{Lit: "x"}, self, {Lit: "y"}}}
 		c.Root.Put(k, &vx.Node{K: "expr", Expr: rapid.SampledFrom(parts).Draw(t, "selfparts")})
-		c.Resolvers = append(c.Resolvers, []vx.KV{{K: k, V: rapid.SampledFrom([]string{"rv", "5", "/from/resolver", "p,q", "true"}).Draw(t, "selfval")}})
+		c.Resolvers = append(c.Resolvers, []vx.KV{{K: k, V: rapid.SampledFrom([]string{"rv", "5", "/from/resolver", "p,q", "true", "{h: 1, p: x}", "u,v,w"}).Draw(t, "selfval")}})
+		if rapid.Bool().Draw(t, "selfdiamond") {
+			// other settings reach the same reference: a diamond on top of the absorbed re-entry
+			for _, k2 := range []string{"a", "b", "c", "d"} {
+				if k2 != k && rapid.IntRange(0, 2).Draw(t, "selfuse") == 0 {
+					c.Root.Put(k2, &vx.Node{K: "expr", Expr: []vx.Part{self}})
+				}
+			}
+		}
 	}
-	vx.Lighten(weightLimit, append([]*vx.Node{c.Root}, c.Envs...)...)
+	vx.Lighten(weightLimit, append(append([]*vx.Node{c.Root}, c.Layers...), c.Envs...)...)
 	return c
 }
 
@@ -65,27 +198,100 @@ func unpackField(c *ucfg.Config, key string, opts []ucfg.Option) (interface{}, e
 	return out.Elem().Field(0).Interface(), err
 }
 
+// build puts the configuration of the case together. Whatever the way, the result holds the settings of Root
+// with every layer merged over them, references unevaluated:
+//
+//	0: NewFrom(Root), then Merge(layer) with the layer as Go data
+//	1: every step is turned into a *Config first and merged as such into an empty configuration
+//	2: like 0, then the whole configuration is merged into an empty one, which is read (a copy)
+//	3: like 0, but the copy is taken before the last layer, which is merged into the copy
+func build(c Case, opts []ucfg.Option) (*ucfg.Config, error) {
+	var cfg *ucfg.Config
+	err := uc.Safe("building the configuration", func() error {
+		step := func(i int, n *vx.Node) error {
+			var src interface{} = n.Go()
+			if c.Build == 1 {
+				sc, err := ucfg.NewFrom(src, opts...)
+				if err != nil {
+					return fmt.Errorf("NewFrom of step %d failed: %v", i, err)
+				}
+				src = sc
+			}
+			if err := cfg.Merge(src, opts...); err != nil {
+				return fmt.Errorf("Merge of step %d failed: %v", i, err)
+			}
+			return nil
+		}
+		copyOf := func() error {
+			d := ucfg.New()
+			if err := d.Merge(cfg, opts...); err != nil {
+				return fmt.Errorf("merging the configuration into an empty one failed: %v", err)
+			}
+			cfg = d
+			return nil
+		}
+		if c.Build == 1 {
+			cfg = ucfg.New()
+			if err := step(0, c.Root); err != nil {
+				return err
+			}
+		} else {
+			var err error
+			if cfg, err = ucfg.NewFrom(c.Root.Go(), opts...); err != nil {
+				return fmt.Errorf("NewFrom failed: %v", err)
+			}
+		}
+		for i, l := range c.Layers {
+			if c.Build == 3 && i == len(c.Layers)-1 {
+				if err := copyOf(); err != nil {
+					return err
+				}
+			}
+			if err := step(i+1, l); err != nil {
+				return err
+			}
+		}
+		if c.Build == 2 || c.Build == 3 && len(c.Layers) == 0 {
+			return copyOf()
+		}
+		return nil
+	})
+	return cfg, err
+}
+
+func histClasses(c Case, r *runlog.R) {
+	r.ClassIf(len(c.Layers) > 0, "configuration put together by several Merge calls")
+	r.ClassIf(c.Build == 1, "steps merged as *Config sources")
+	r.ClassIf(c.Build >= 2, "a copy (merged into an empty configuration) is read")
+}
+
 func runCase(c Case, r *runlog.R) error {
 	opts, err := vx.Options(c.Envs, c.Resolvers)
 	if err != nil {
 		return err
 	}
-	var cfg *ucfg.Config
-	if err := uc.Safe("NewFrom", func() (e error) { cfg, e = ucfg.NewFrom(c.Root.Go(), opts...); return }); err != nil {
-		return fmt.Errorf("NewFrom failed: %v", err)
+	cfg, err := build(c, opts)
+	if err != nil {
+		return err
 	}
+	histClasses(c, r)
+	// everything below is about the configuration the history results in
+	orig := c
+	c.Root = c.mergedRoot()
+	r.ClassIf(nestedRefs(c.Root), "reference inside a container nested in a container")
 	w := &vx.World{Root: c.Root, Envs: c.Envs, Resolvers: c.Resolvers}
 
 	// (1) every read entry point returns, with typed errors
 	typed := func(what string, err error) error { return vx.Typed(what, err) }
 	var first error
+	var other *ucfg.Config
 	note := func(what string, err error) {
 		if first == nil {
 			first = typed(what, err)
 		}
 	}
 	e := uc.Safe("read entry points", func() error {
-		for _, k := range []string{"a", "b", "c", "d", "o", "o.x", "o.y", "l", "l.0", "l.1", "zz"} {
+		for _, k := range []string{"a", "b", "c", "d", "o", "o.x", "o.y", "l", "l.0", "l.1", "zz", "o.l", "o.l.1", "l.1.0", "l.1.x"} {
 			_, err := cfg.String(k, -1, opts...)
 			note("String", err)
 			_, err = cfg.Int(k, -1, opts...)
@@ -110,8 +316,8 @@ func runCase(c Case, r *runlog.R) error {
 		d := ucfg.New()
 		note("Merge", d.Merge(cfg, opts...))
 		note("Merge append", d.Merge(cfg, append([]ucfg.Option{ucfg.AppendValues}, opts...)...))
-		diff.CompareConfigs(cfg, d, opts...)
 		diff.CompareConfigs(cfg, cfg, opts...)
+		other = d
 		return nil
 	})
 	if e != nil {
@@ -120,8 +326,8 @@ func runCase(c Case, r *runlog.R) error {
 	if first != nil {
 		return first
 	}
-	var keys []string
-	if e := uc.Safe("FlattenedKeys", func() error { keys = cfg.FlattenedKeys(opts...); return nil }); e != nil {
+	keys, e := diffChecks(orig, cfg, other, opts, r)
+	if e != nil {
 		return e
 	}
 
@@ -236,6 +442,335 @@ func runCase(c Case, r *runlog.R) error {
 	r.ClassIf(anyCycle, "case has a cycle")
 	r.NonTrivialIf(nt)
 	return nil
+}
+
+// nestedRefs reports whether an expression lives in a container that is itself a member of a container
+func nestedRefs(root *vx.Node) bool {
+	for _, v := range root.Vals {
+		for _, e := range v.Vals {
+			if (e.K == "obj" || e.K == "list") && e.AnyPart(func(p *vx.Part) bool { return p.IsVar }) {
+				return true
+			}
+		}
+	}
+	return false
+}
+
+func keySet(keys []string) map[string]bool {
+	m := make(map[string]bool, len(keys))
+	for _, k := range keys {
+		m[k] = true
+	}
+	return m
+}
+
+func sameSet(a, b map[string]bool) bool {
+	if len(a) != len(b) {
+		return false
+	}
+	for k := range a {
+		if !b[k] {
+			return false
+		}
+	}
+	return true
+}
+
+func sortedKeys(m map[string]bool) []string {
+	out := make([]string, 0, len(m))
+	for k := range m {
+		out = append(out, k)
+	}
+	sort.Strings(out)
+	return out
+}
+
+// readVariant is an option list for FlattenedKeys and CompareConfigs
+type readVariant struct {
+	name   string
+	opts   []ucfg.Option
+	stable bool // no setting's evaluation absorbs a re-entry under these options
+}
+
+// withAltProbes returns a copy of the tree in which every ${N:+R} is preceded by ${N:}: the model decides ":+" by
+// looking whether N exists and treats a name under evaluation as unset without recording the re-entry; the
+// probe evaluates N, so that stableTree sees a re-entry (and its absorption) there as well.
+func withAltProbes(root *vx.Node) *vx.Node {
+	out := root.Clone()
+	var parts func(ps []vx.Part) []vx.Part
+	parts = func(ps []vx.Part) []vx.Part {
+		var res []vx.Part
+		for _, p := range ps {
+			if p.IsVar {
+				p.Name = parts(p.Name)
+				p.Right = parts(p.Right)
+				if p.Op == ":+" {
+					res = append(res, vx.Part{IsVar: true, Name: p.Name, Op: ":"})
+				}
+			}
+			res = append(res, p)
+		}
+		return res
+	}
+	var walk func(n *vx.Node)
+	walk = func(n *vx.Node) {
+		if n.K == "expr" {
+			n.Expr = parts(n.Expr)
+		}
+		for _, c := range n.Vals {
+			walk(c)
+		}
+	}
+	walk(out)
+	return out
+}
+
+// stableTree evaluates every expression of the tree on its own, the way FlattenedKeys meets it, and reports
+// whether none of these evaluations absorbs a re-entry (other than the statement's own case, a setting whose only
+// name is re-entered and provided by a resolver) or leads through an expression; and whether some name was
+// computed while reading and contains the separator.
+func stableTree(root *vx.Node, w *vx.World) (stable, dotted bool) {
+	stable = true
+	var walk func(n *vx.Node)
+	walk = func(n *vx.Node) {
+		if n.K == "expr" {
+			w.Reset()
+			_, werr := w.Eval(n)
+			if w.ThroughExpr {
+				stable = false
+			}
+			if w.SawCycle && (w.Absorbed || werr != vx.ErrCyclic) && (w.Swallowed || len(w.Uses) != 1) {
+				stable = false
+			}
+			dotted = dotted || w.ComputedDotted
+		}
+		for _, c := range n.Vals {
+			walk(c)
+		}
+	}
+	walk(root)
+	return
+}
+
+// diffChecks: key flattening and configuration diffing are reads like any other - they evaluate references with
+// the options of the call, for BOTH configurations. Whatever the options are (the ones the configuration was built
+// with, another path separator, the same without resolvers and Env configs, none at all), and unless an absorbed
+// re-entry makes the keys depend on the order of evaluation (see below):
+//   - FlattenedKeys of one configuration yields the same sorted keys every time, and the same keys as for an
+//     identically built configuration;
+//   - CompareConfigs with an identically built configuration reports no change;
+//   - CompareConfigs(x, y, opts...) reports only keys of x.FlattenedKeys(opts...) or y.FlattenedKeys(opts...), every
+//     key once, as removed exactly the keys only x has and - where neither side lists a key twice - exactly the
+//     partition into kept, removed and added keys (edited and merged-twice second configurations, both argument
+//     orders); HasChanged & co. agree with the lists.
+//
+// Observed on the unchanged library and outside the statement (not asserted): a key that the old configuration
+// lacks and that the new one lists twice (a reference to an object or list contributes the paths of the referenced
+// settings once more) is reported as kept instead of added.
+//
+// It returns the keys under the options the configuration was built with.
+func diffChecks(c Case, cfg, merged *ucfg.Config, opts []ucfg.Option, r *runlog.R) ([]string, error) {
+	// Where a re-entry is absorbed, the value of the inner evaluation depends on what was active around it and the
+	// per-call cache re-uses it elsewhere: the keys of such a configuration legitimately depend on the order in
+	// which FlattenedKeys visits the settings (reading decisions 17 and 22). The comparisons below are asserted
+	// for configurations in which no setting is of that kind - in the world of the call: with and without the
+	// Env configs and resolvers.
+	mroot := withAltProbes(c.mergedRoot())
+	var envs []*vx.Node
+	for _, e := range c.Envs {
+		envs = append(envs, withAltProbes(e))
+	}
+	fullStable, fullDotted := stableTree(mroot, &vx.World{Root: mroot, Envs: envs, Resolvers: c.Resolvers})
+	bareStable, bareDotted := stableTree(mroot, &vx.World{Root: mroot})
+	// the edited sibling is a configuration of its own: a setting less (what referred to it now fails or falls
+	// back to a default), references more (below n7 the name o is under evaluation)
+	ref := func(n string) *vx.Node {
+		return &vx.Node{K: "expr", Expr: []vx.Part{{IsVar: true, Name: []vx.Part{{Lit: n}}}}}
+	}
+	eroot := mroot.Clone()
+	if len(eroot.Keys) > 0 {
+		eroot.Keys, eroot.Vals = eroot.Keys[1:], eroot.Vals[1:]
+	}
+	eroot.Put("n8", ref("a"))
+	if c.ReadSep == "" {
+		eroot.Put("n7", ref("o"))
+	}
+	eFull, _ := stableTree(eroot, &vx.World{Root: eroot, Envs: envs, Resolvers: c.Resolvers})
+	eBare, _ := stableTree(eroot, &vx.World{Root: eroot})
+	twin, err := build(c, opts)
+	if err != nil {
+		return nil, fmt.Errorf("building the same configuration a second time failed: %v", err)
+	}
+	// an edited sibling: one top-level setting less, one more, one reference more
+	edited, err := build(c, opts)
+	if err != nil {
+		return nil, err
+	}
+	if e := uc.Safe("editing the second configuration", func() error {
+		if fs := c.mergedRoot().Keys; len(fs) > 0 {
+			if _, err := edited.Remove(fs[0], -1, opts...); err != nil {
+				return fmt.Errorf("Remove(%q) failed: %v", fs[0], err)
+			}
+		}
+		add := map[string]interface{}{"n9": map[string]interface{}{"k": 1}, "n8": "${a}"}
+		if c.ReadSep == "" {
+			add["n7"] = "${o}" // one reference more to (what may be) an object: its keys once more
+		}
+		return edited.Merge(add, opts...)
+	}); e != nil {
+		return nil, e
+	}
+	variants := []readVariant{{"the options the configuration was built with", opts, fullStable}}
+	if c.ReadSep != "" {
+		// (a name that is computed while reading is split with the separator of the reading call)
+		variants = append(variants, readVariant{fmt.Sprintf("the same options and PathSep(%q)", c.ReadSep), append(append([]ucfg.Option(nil), opts...), ucfg.PathSep(c.ReadSep)), fullStable && bareStable && !fullDotted && !bareDotted})
+	}
+	if len(c.Envs)+len(c.Resolvers) > 0 {
+		variants = append(variants, readVariant{"PathSep and VarExp only (no Env configs, no resolvers)", opts[:2], bareStable})
+	}
+	variants = append(variants, readVariant{"no options", nil, bareStable})
+
+	flat := func(what string, x *ucfg.Config, o []ucfg.Option) (keys []string, err error) {
+		err = uc.Safe("FlattenedKeys of "+what, func() error { keys = x.FlattenedKeys(o...); return nil })
+		return
+	}
+	var builtKeys []string
+	var plain map[string]bool
+	for vi, v := range variants {
+		k1, err := flat("the configuration", cfg, v.opts)
+		if err != nil {
+			return nil, err
+		}
+		if !sort.StringsAreSorted(k1) {
+			return nil, fmt.Errorf("FlattenedKeys with %s returns keys that are not sorted: %v", v.name, k1)
+		}
+		if vi == 0 {
+			builtKeys = k1
+		}
+		if v.opts == nil {
+			plain = keySet(k1)
+		}
+		if v.stable {
+			k2, err := flat("the configuration (second call)", cfg, v.opts)
+			if err != nil {
+				return nil, err
+			}
+			if !reflect.DeepEqual(k1, k2) {
+				return nil, fmt.Errorf("FlattenedKeys with %s: two calls on the same configuration return different keys: %v and %v", v.name, k1, k2)
+			}
+			kt, err := flat("an identically built configuration", twin, v.opts)
+			if err != nil {
+				return nil, err
+			}
+			if !reflect.DeepEqual(k1, kt) {
+				return nil, fmt.Errorf("FlattenedKeys with %s: two identically built configurations have different keys: %v and %v", v.name, k1, kt)
+			}
+		}
+		pairs := []struct {
+			what string
+			x, y *ucfg.Config
+		}{
+			{"an identically built configuration", cfg, twin},
+			{"an edited sibling", cfg, edited},
+			{"an edited sibling (as the old one)", edited, cfg},
+			{"a configuration it was merged into twice (appending)", cfg, merged},
+		}
+		if vi > 1 {
+			pairs = pairs[:2]
+		}
+		for pi, p := range pairs {
+			stable := v.stable
+			if pi == 1 || pi == 2 {
+				stable = stable && eFull && eBare
+			}
+			var d diff.Diff
+			if e := uc.Safe("CompareConfigs", func() error { d = diff.CompareConfigs(p.x, p.y, v.opts...); return nil }); e != nil {
+				return nil, e
+			}
+			seenKey := map[string]bool{}
+			for _, typ := range []diff.Type{diff.Keep, diff.Add, diff.Remove} {
+				for _, k := range d[typ] {
+					if seenKey[k] {
+						return nil, fmt.Errorf("CompareConfigs with %s and %s reports the key %q twice: %v", p.what, v.name, k, d)
+					}
+					seenKey[k] = true
+				}
+			}
+			if d.HasKeyAdded() != (len(d[diff.Add]) > 0) || d.HasKeyRemoved() != (len(d[diff.Remove]) > 0) || d.HasChanged() != (len(d[diff.Add])+len(d[diff.Remove]) > 0) {
+				return nil, fmt.Errorf("CompareConfigs with %s and %s: HasKeyAdded/HasKeyRemoved/HasChanged = %v/%v/%v disagree with the lists %v", p.what, v.name, d.HasKeyAdded(), d.HasKeyRemoved(), d.HasChanged(), d)
+			}
+			if !stable {
+				r.Class("diff where an absorbed re-entry makes keys depend on the evaluation order (termination, each key once)")
+				continue
+			}
+			kx, err := flat(p.what, p.x, v.opts)
+			if err != nil {
+				return nil, err
+			}
+			ky, err := flat(p.what, p.y, v.opts)
+			if err != nil {
+				return nil, err
+			}
+			sx, sy := keySet(kx), keySet(ky)
+			for k := range seenKey {
+				if !sx[k] && !sy[k] {
+					return nil, fmt.Errorf("CompareConfigs of the configuration with %s, with %s, reports the key %q, which FlattenedKeys with the same options yields for neither configuration (%v, %v)", p.what, v.name, k, kx, ky)
+				}
+			}
+			onlyOld := map[string]bool{}
+			for k := range sx {
+				if !sy[k] {
+					onlyOld[k] = true
+				}
+			}
+			if got := keySet(d[diff.Remove]); !sameSet(got, onlyOld) {
+				return nil, fmt.Errorf("CompareConfigs of the configuration with %s, with %s: removed keys are %v, but FlattenedKeys with the same options yields %v for the old and %v for the new configuration (only in the old one: %v)", p.what, v.name, sortedKeys(got), kx, ky, sortedKeys(onlyOld))
+			}
+			if pi == 0 && d.HasChanged() {
+				return nil, fmt.Errorf("CompareConfigs of two identically built configurations with %s reports a change: %v", v.name, d)
+			}
+			if len(sx) != len(kx) || len(sy) != len(ky) {
+				// observed on the unchanged library, outside the statement: a key that is new and listed twice among
+				// the keys of the new configuration is reported as kept (which keys a reference to an object or list
+				// contributes, and how often, is not stated)
+				r.Class("diff: partition not asserted, a side lists a key twice (reference to a container)")
+				continue
+			}
+			want := map[diff.Type]map[string]bool{diff.Keep: {}, diff.Add: {}, diff.Remove: {}}
+			for k := range sx {
+				if sy[k] {
+					want[diff.Keep][k] = true
+				} else {
+					want[diff.Remove][k] = true
+				}
+			}
+			for k := range sy {
+				if !sx[k] {
+					want[diff.Add][k] = true
+				}
+			}
+			for _, typ := range []diff.Type{diff.Keep, diff.Add, diff.Remove} {
+				name := map[diff.Type]string{diff.Keep: "kept", diff.Add: "added", diff.Remove: "removed"}[typ]
+				if got := keySet(d[typ]); !sameSet(got, want[typ]) {
+					return nil, fmt.Errorf("CompareConfigs of the configuration with %s, with %s: %s keys are %v, but FlattenedKeys with the same options yields %v for the old and %v for the new configuration (so %s: %v)", p.what, v.name, name, sortedKeys(got), kx, ky, name, sortedKeys(want[typ]))
+				}
+			}
+			for typ := range d {
+				if typ != diff.Keep && typ != diff.Add && typ != diff.Remove {
+					return nil, fmt.Errorf("CompareConfigs reports keys of an unknown type %v", typ)
+				}
+			}
+			r.Class("diff: exact partition of the flattened keys asserted")
+			r.ClassIf(pi > 0 && len(want[diff.Add]) > 0 && len(want[diff.Remove]) > 0 && len(want[diff.Keep]) > 0, "diff with kept, added and removed keys")
+		}
+	}
+	if plain != nil {
+		bs := keySet(builtKeys)
+		r.ClassIf(!sameSet(bs, plain), "Env configs / resolvers change the key set (compared with a call without options)")
+	}
+	r.ClassIf(c.ReadSep != "", "flattened and diffed with another path separator too")
+	r.ClassIf(fullStable, "FlattenedKeys/CompareConfigs: repeatable, twin, partition (options of the configuration)")
+	return builtKeys, nil
 }
 
 // throughCycle: k is a reference that can only be evaluated by re-entering itself and nothing absorbs that. A read
@@ -595,13 +1130,13 @@ func siblingsVariant(cfg *ucfg.Config, c Case, w *vx.World, opts []ucfg.Option, 
 
 var subCycles = runlog.Register(&runlog.Sub[Case]{
 	Name:    "reference-graphs",
-	Rule:    "reference graphs over settings a-d, o{x,y}, l[2] with names drawn mostly from the own tree (self references, ancestor/descendant references through the object o, chains, diamonds, the same name several times in one string, references inside names and defaults), optionally an Env config and a resolver that can absorb a cycle. Every read entry point (typed getters, Child, Has, CountField, Unpack, use as merge source, FlattenedKeys, CompareConfigs) must return with typed errors; a field whose evaluation never re-enters a reference must yield the model's value (never a cyclic-reference error), read alone and together with all its siblings as fields of one struct; a field that must re-enter one while nothing can absorb it must fail with a cyclic-reference error (also when it is only walked through: k.zz, element 1 of k); a setting that extends the equally named variable of a resolver (one case in six plants one) must yield the model's value. Non-trivial: the evaluation of some field dereferences a name more than once (repeated use / diamond) or re-enters a reference (cycle). Distinct: hash of the case.",
+	Rule:    "reference graphs over settings a-d, o{x,y}, l[2] with names drawn mostly from the own tree (self references, ancestor/descendant references through the object o, chains, diamonds, the same name several times in one string, references inside names and defaults), optionally an Env config and a resolver that can absorb a cycle; a third of the cases nest containers (a list o.l, a list or object as l.1, with names leading to their members). HISTORY: a third of the cases merge one or two later layers over the first (leaves of the tree so far redefined by new literals/nil/expressions, lists element-wise), the steps given as Go data or as *Config sources, and in two cases of five a copy (the configuration merged into an empty one, before or after the last layer) is what is read; the model is the merged tree - references see the settings merged last. Every read entry point (typed getters, Child, Has, CountField, Unpack, use as merge source, FlattenedKeys, CompareConfigs) must return with typed errors; a field whose evaluation never re-enters a reference must yield the model's value (never a cyclic-reference error), read alone and together with all its siblings as fields of one struct; a field that must re-enter one while nothing can absorb it must fail with a cyclic-reference error (also when it is only walked through: k.zz, element 1 of k); a setting that extends the equally named variable of a resolver (one case in six plants one, half of them with other settings referring to it, resolver values that parse into lists and objects included) must yield the model's value. FLATTENING AND DIFFING under up to four option lists (the options the configuration was built with; the same plus PathSep '/', '::' or '-'; PathSep and VarExp without the Env configs and resolvers; no options): unless some setting absorbs a re-entry other than in the statement's own case (there keys depend on the order of evaluation; only termination, every key once and HasChanged/HasKeyAdded/HasKeyRemoved consistent with the lists are asserted) FlattenedKeys is sorted, the same on a second call and for an identically built second configuration; CompareConfigs with an identically built configuration reports no change; with an edited sibling (one setting removed, two or three added, both argument orders) and with a configuration the first was merged into twice (appending) every reported key is a key of one side under the same options, the removed keys are exactly the keys only the old side has, and - where neither side lists a key twice - kept/added/removed are exactly the partition of the two key sets. Non-trivial: the evaluation of some field dereferences a name more than once (repeated use / diamond) or re-enters a reference (cycle). Distinct: hash of the case.",
 	Gen:     genCase,
 	Run:     runCase,
 	Journal: true,
 })
 
-func TestReferenceGraphs(t *testing.T) { subCycles.Check(t, 60000, 3000000) }
+func TestReferenceGraphs(t *testing.T) { subCycles.Check(t, 40000, 2000000) }
 
 // ---------------------------------------------------------------------------
 // wild graphs: termination only
@@ -639,9 +1174,9 @@ func genWild(t *rapid.T) Case {
 type nest []nest
 
 type wildTarget struct {
-	LN nest            `config:"l"`
-	AN nest            `config:"a"`
-	ON map[string]nest `config:"o"`
+	LN nest                   `config:"l"`
+	AN nest                   `config:"a"`
+	ON map[string]nest        `config:"o"`
 	A  node                   `config:"a"`
 	B  *node                  `config:"b"`
 	C  []string               `config:"c"`
@@ -737,6 +1272,6 @@ var subWild = runlog.Register(&runlog.Sub[Case]{
 	Journal: true,
 })
 
-func TestWildGraphs(t *testing.T) { subWild.Check(t, 20000, 1500000) }
+func TestWildGraphs(t *testing.T) { subWild.Check(t, 15000, 1500000) }
 
 func TestReplay(t *testing.T) { runlog.ReplayMain(t) }
